@@ -33,10 +33,15 @@ func PackageVarWrites(p *packages.Package) []string {
 	if info == nil {
 		return nil
 	}
+	// guarded: the values the analysed functions return or call through (error values, function variables);
+	// other package state (a cache, a registry) is the library's own business
 	pkgVars := map[types.Object]bool{}
 	for _, n := range p.Types.Scope().Names() {
 		if v, ok := p.Types.Scope().Lookup(n).(*types.Var); ok {
-			pkgVars[v] = true
+			switch v.Type().Underlying().(type) {
+			case *types.Interface, *types.Signature:
+				pkgVars[v] = true
+			}
 		}
 	}
 	root := func(x ast.Expr) *ast.Ident {
